@@ -19,6 +19,9 @@ type Graph struct {
 	U     FuncUnit
 	Info  *types.Info
 	CFG   *cfg.CFG
+	// switchTag maps each case expression of a tagged switch to the switch's tag: go/cfg emits the bare case expression as
+	// the condition node, which stands for `tag == expr`
+	switchTag map[ast.Expr]ast.Expr
 	idom  map[*cfg.Block]*cfg.Block
 	order map[*cfg.Block]int
 	preds map[*cfg.Block][]*cfg.Block
@@ -33,6 +36,22 @@ func NewGraph(u FuncUnit) *Graph {
 	g := &Graph{U: u, Info: u.Pkg.TypesInfo}
 	g.CFG = cfg.New(body, MayReturn(g.Info))
 	g.computeDominators()
+	g.switchTag = map[ast.Expr]ast.Expr{}
+	ast.Inspect(body, func(n ast.Node) bool {
+		if _, ok := n.(*ast.FuncLit); ok {
+			return false
+		}
+		if sw, ok := n.(*ast.SwitchStmt); ok && sw.Tag != nil {
+			for _, c := range sw.Body.List {
+				if cc, ok := c.(*ast.CaseClause); ok {
+					for _, e := range cc.List {
+						g.switchTag[e] = sw.Tag
+					}
+				}
+			}
+		}
+		return true
+	})
 	return g
 }
 
@@ -256,6 +275,15 @@ func (t Tri) Not() Tri {
 	return Unknown
 }
 
+// CondExpr returns the boolean expression a condition node stands for: a case expression of a tagged switch means
+// `tag == expr`.
+func (g *Graph) CondExpr(e ast.Expr) ast.Expr {
+	if tag, ok := g.switchTag[e]; ok {
+		return &ast.BinaryExpr{X: tag, Op: token.EQL, Y: e}
+	}
+	return e
+}
+
 // EvalCond evaluates a condition with an oracle for atoms, interpreting !, &&, ||.
 func EvalCond(cond ast.Expr, atom func(ast.Expr) Tri) Tri {
 	cond = ast.Unparen(cond)
@@ -446,6 +474,7 @@ func (g *Graph) ReturnsUnderFact(from Loc, atom func(ast.Expr) Tri) (rets []Retu
 		}
 		if len(b.Succs) == 2 && len(b.Nodes) > 0 {
 			if e, ok := b.Nodes[len(b.Nodes)-1].(ast.Expr); ok {
+				e = g.CondExpr(e)
 				tv := EvalCond(e, atom)
 				if tv != False {
 					t := vset{}
